@@ -155,3 +155,25 @@ pub fn max_stream_data(kind: u8, size: u64, sent_max: u64, end: u64, bytes_read:
     core::mem::forget(r);
     if want { 2 } else { 1 }
 }
+
+/// C06 / C11: a recycled `Recv` (stream state objects are pooled and reused for later streams)
+/// starts from exactly the initial state: nothing of the previous stream's limit, high-water
+/// mark, final size, stop flag or read cursor survives `reinit`.
+pub fn reinit(kind: u8, size: u64, code: u64, sent_max: u64, end: u64, bytes_read: u64, stopped: bool, initial_max_data: u64) -> u32 {
+    if !valid_recv(kind, size, code, sent_max, end, bytes_read) {
+        return 0;
+    }
+    let mut r = mk_recv(kind, size, code, sent_max, end, bytes_read, stopped);
+    r.reinit(initial_max_data);
+    assert!(r.state == RecvState::Recv { size: None });
+    assert!(r.sent_max_stream_data == initial_max_data);
+    assert!(r.end == 0 && !r.stopped);
+    assert!(r.assembler.bytes_read() == 0);
+    assert!(r.is_receiving() && r.final_offset_unknown() && r.can_send_flow_control() && r.reset_code().is_none());
+    // identical to a freshly constructed one
+    let fresh = Recv::new(initial_max_data);
+    assert!(fresh.state == r.state && fresh.sent_max_stream_data == r.sent_max_stream_data && fresh.end == r.end && fresh.stopped == r.stopped);
+    core::mem::forget(fresh);
+    core::mem::forget(r);
+    1
+}
